@@ -1,17 +1,20 @@
 #!/bin/sh
-# usage: tools/verify_pres.sh <Cxx> [n]  -- applies seeded/<Cxx>-p1 and -p2 together in a scratch worktree and runs the baseline
-P=$1
+# usage: tools/verify_pres.sh <Cxx> [n] [p1 p2 | p3 p4 ...]  -- applies the named preserving patches together in a scratch
+# worktree of /repo and runs the baseline
+P=$1; N=${2:-8}; shift; shift 2>/dev/null
+KS=${*:-"p1 p2"}
+TAG=$(echo $KS | tr ' ' '+')
 W=/tmp/wtv/$P-pres
 rm -rf $W; mkdir -p /tmp/wtv
 git -C /repo worktree add --detach $W HEAD -q || exit 3
 cd $W
 AP=""
-for k in p1 p2; do
+for k in $KS; do
   if [ -f /verif/seeded/$P-$k/patch.diff ]; then
     if git apply /verif/seeded/$P-$k/patch.diff 2>/dev/null; then AP="$AP $k=git"; elif patch -p1 -s < /verif/seeded/$P-$k/patch.diff; then AP="$AP $k=patch"; else AP="$AP $k=FAILED"; fi
   fi
 done
-/root/work/run_baseline.sh $W /tmp/wtv/$P-pres.base ${2:-8} > /tmp/wtv/$P-pres.base.out 2>&1
+/root/work/run_baseline.sh $W /tmp/wtv/$P-pres.base $N > /tmp/wtv/$P-pres.base.out 2>&1
 BASE=$(tail -1 /tmp/wtv/$P-pres.base.out)
 cd /; git -C /repo worktree remove --force $W
-echo "$P-p1+p2 apply=[$AP ] baseline=[$BASE]"
+echo "$P-$TAG apply=[$AP ] baseline=[$BASE]"
